@@ -927,7 +927,9 @@ func (ex *Exec) instr(fr *Frame, st *State, in ssa.Instruction) {
 		ex.initMap(st, in.Type(), ref)
 		fr.vals[in] = Val{T: in.Type(), L: []string{ref}}
 	case *ssa.MakeChan:
-		fr.vals[in] = Val{T: in.Type(), L: []string{ex.newRef(st, "chan")}}
+		ref := ex.newRef(st, "chan")
+		ex.assume(st.pc, eq(app(ex.declFun("chancap", []string{sInt}, bv64), ref), ex.toInt64(ex.value(fr, st, in.Size))))
+		fr.vals[in] = Val{T: in.Type(), L: []string{ref}}
 	case *ssa.MakeClosure:
 		var bind []Val
 		for _, b := range in.Bindings {
@@ -1026,6 +1028,35 @@ func (ex *Exec) nilCheck(fr *Frame, st *State, t *target, pos token.Pos, addr ss
 	if t.kind == 1 {
 		ex.oblige(fr, st, "nil", "", not(eq(t.ref, "0")), pos, "nil pointer dereference: "+ex.srcLine(pos))
 	}
+	ex.guardedCheck(fr, st, t, pos)
+}
+
+// guardedCheck: a field declared "guarded F by L" may only be read or written while L is held
+// (by this function, or by its caller as stated in a "requires x.L.held").
+func (ex *Exec) guardedCheck(fr *Frame, st *State, t *target, pos token.Pos) {
+	if t.kind != 2 || ex.specMode > 0 {
+		return
+	}
+	tc := ex.C.Types[typeContractKey(t.S)]
+	if tc == nil {
+		return
+	}
+	for _, g := range tc.Guards {
+		for _, fname := range g.Fields {
+			if fname != t.f.Name() {
+				continue
+			}
+			S := t.S.Underlying().(*types.Struct)
+			for i := 0; i < S.NumFields(); i++ {
+				if S.Field(i).Name() == g.Lock {
+					held := ex.loadField(st, t.S, S.Field(i), t.ref)
+					if len(held.L) == 1 {
+						ex.oblige(fr, st, "guarded", tc.Key+"."+fname, held.L[0], pos, "field "+fname+" is guarded by "+g.Lock+", which is not held here: "+ex.srcLine(pos))
+					}
+				}
+			}
+		}
+	}
 }
 
 func (ex *Exec) zeroMem(st *State, E types.Type, base string) {
@@ -1068,7 +1099,9 @@ func (ex *Exec) unop(fr *Frame, st *State, in *ssa.UnOp) {
 			v.L = nl
 		}
 		fr.vals[in] = v
+		ex.fromReg = t.kind == 6
 		ex.afterLoad(fr, st, v)
+		ex.fromReg = false
 	case token.NOT:
 		fr.vals[in] = Val{T: in.Type(), L: []string{not(ex.value(fr, st, in.X).L[0])}}
 	case token.SUB:
@@ -1110,9 +1143,20 @@ func (ex *Exec) afterLoad(fr *Frame, st *State, v Val) {
 	}
 	// objects reachable through the heap satisfy their type invariant at visible states
 	// (objects this function is in the middle of changing are re-checked at its exits)
-	if ex.invDepth == 0 && ex.specMode == 0 && (len(v.L) == 1 || len(v.L) == 2) {
+	if ex.invDepth == 0 && ex.specMode == 0 && !ex.fromReg && (len(v.L) == 1 || len(v.L) == 2) {
 		if rc := ex.rootFrame; rc == nil || rc.ct == nil || !rc.ct.NoInv {
-			ex.assumeTypeInv(fr, st, v)
+			// never for an object this function has written to (its invariant may be broken right now)
+			ref := v.L[len(v.L)-1]
+			written := false
+			for _, sr := range ex.storedRefs {
+				if sr.Ref == ref {
+					written = true
+					break
+				}
+			}
+			if !written {
+				ex.assumeTypeInv(fr, st, v)
+			}
 		}
 	}
 }
